@@ -27,13 +27,30 @@ class ConvHooks(Hooks):
         self.eb_src = eb_src
         self.eb_dst = eb_dst
 
+    # loops that address the input / output through an index instead of a moving pointer: the carried slot holding the index
+    # (found by a first run, see run_iteration) is given the cursor's name, so that both loop shapes are analysed in one vocabulary
+    in_index = None
+    out_index = None
+
     def widen_value(self, I, st, fn, header, name, current):
         if isinstance(current, PtrV):
             if current.obj == 'IN':
                 return PtrV('IN', Lin.atom('cur').scale(self.eb_src))
             if current.obj == 'OUT':
                 return PtrV('OUT', Lin.atom('outpos').scale(self.eb_dst))
+        if isinstance(current, IntV):
+            if self.in_index is not None and (fn.name, name) == self.in_index:
+                if self.out_index == self.in_index:
+                    # one index for both sides: input and output positions coincide
+                    st.assume_eq0(Lin.atom('outpos') - Lin.atom('cur'))
+                return IntV(current.bits, Lin.atom('cur'), current.kind)
+            if self.out_index is not None and (fn.name, name) == self.out_index:
+                return IntV(current.bits, Lin.atom('outpos'), current.kind)
         return None
+
+    def on_access(self, I, st, inst, kind, p, nbytes):
+        if kind == 'load' and p.obj == 'IN':
+            st.ev('in-load', inst, p.off)
 
     def loop_candidates(self, I, st, fn, header, phis):
         # accumulator <= 4 * cursor (each iteration adds at most 4 output units and consumes at least one input unit);
@@ -48,6 +65,10 @@ class ConvHooks(Hooks):
                 v = I.slot_value(st2, fr, name, {}) if name[0] == 'cell' else fr.regs.get(name[1])
                 if isinstance(v, PtrV) and v.obj == 'IN':
                     cur = v.off
+                elif isinstance(v, IntV) and self.in_index == (fn.name, name):
+                    cur = I.as_u(st2, v).scale(eb)
+                elif isinstance(v, IntV) and self.out_index == (fn.name, name):
+                    pass
                 elif isinstance(v, IntV) and v.bits == 64:
                     accs.append(v)
             if cur is None or len(accs) != 1:
@@ -122,7 +143,53 @@ class Iter(object):
     __slots__ = ('kind', 'st', 'din', 'dout', 'dlen', 'ret', 'info', 'stores')
 
 
+def _index_slot(outs, fn, obj, eb, evkind, offidx):
+    """Name of the carried integer slot that the accesses of `obj` are indexed with (offset == eb * slot + constant), if any."""
+    for o in outs:
+        begin = o.st.flags.get('wbegin:' + fn.name) or {}
+        syms = {}
+        for name, bv in begin.items():
+            if isinstance(bv, IntV):
+                sa = bv.lin.single_atom()
+                if sa is not None and sa[1] == 1 and sa[2] == 0:
+                    syms[sa[0]] = name
+        for e in o.st.events:
+            if e[0] != evkind:
+                continue
+            off = e[offidx]
+            for a, k in off.t:
+                # the index may appear sign-/zero-extended (smod / mod of the full width): look through that
+                while isinstance(a, tuple) and a[0] in ('smod', 'mod') and isinstance(a[1], Lin) and a[1].single_atom() is not None \
+                        and a[1].single_atom()[1] == 1 and a[1].single_atom()[2] == 0:
+                    a = a[1].single_atom()[0]
+                if a in syms and k == eb:
+                    return (fn.name, syms[a])
+    return None
+
+
 def run_iteration(I, fn, st, args, eb_src, eb_dst):
+    h = I.h
+    if hasattr(h, 'in_index'):
+        h.in_index = h.out_index = None
+    st_in = st.clone()
+    res, outs = _run_iteration(I, fn, st, args, eb_src, eb_dst)
+    if hasattr(h, 'in_index'):
+        # a loop driven by an index: name the index slot after the cursor and interpret again
+        has_in = any(isinstance(bv, PtrV) and bv.obj == 'IN' for o in outs for bv in (o.st.flags.get('wbegin:' + fn.name) or {}).values())
+        has_out = any(isinstance(bv, PtrV) and bv.obj == 'OUT' for o in outs for bv in (o.st.flags.get('wbegin:' + fn.name) or {}).values())
+        ii = None if has_in else _index_slot(outs, fn, 'IN', eb_src, 'in-load', 2)
+        oi = None if has_out else _index_slot(outs, fn, 'OUT', eb_dst, 'out-store', 2)
+        if ii is not None or oi is not None:
+            h.in_index, h.out_index = ii, oi
+            try:
+                res, outs = _run_iteration(I, fn, st_in, args, eb_src, eb_dst)
+            finally:
+                pass
+    return res
+
+
+def _run_iteration(I, fn, st, args, eb_src, eb_dst):
+    h = I.h
     st.frames = []
     st.events = []
     for k in [k for k in st.flags if isinstance(k, str) and (k.startswith('wbegin:') or k.startswith('wend:'))]:
@@ -130,6 +197,8 @@ def run_iteration(I, fn, st, args, eb_src, eb_dst):
     st = I.start(fn, args, st)
     outs = I.run(st)
     res = []
+    in_index = getattr(h, 'in_index', None)
+    out_index = getattr(h, 'out_index', None)
     for o in outs:
         it = Iter()
         it.kind, it.st, it.ret, it.info = o.kind, o.st, o.val, o.info
@@ -139,6 +208,7 @@ def run_iteration(I, fn, st, args, eb_src, eb_dst):
         b = o.st.flags.get(bk[0]) if len(bk) == 1 else None
         e = o.st.flags.get('wend:' + bk[0][7:]) if len(bk) == 1 else None
         if o.kind == 'backedge' and b and e:
+            fname = bk[0][7:]
             for name, bv in b.items():
                 ev = e.get(name)
                 if isinstance(bv, PtrV) and isinstance(ev, PtrV) and bv.obj == ev.obj:
@@ -148,9 +218,15 @@ def run_iteration(I, fn, st, args, eb_src, eb_dst):
                         it.dout = (ev.off - bv.off)
                 elif isinstance(bv, IntV) and isinstance(ev, IntV):
                     d = ev.lin - bv.lin
-                    it.dlen = d if it.dlen is None else it.dlen     # first int slot = accumulator
+                    if in_index == (fname, name) or out_index == (fname, name):
+                        if in_index == (fname, name):
+                            it.din = d.scale(eb_src)
+                        if out_index == (fname, name):
+                            it.dout = d.scale(eb_dst)
+                    else:
+                        it.dlen = d if it.dlen is None else it.dlen     # first int slot = accumulator
         res.append(it)
-    return res
+    return res, outs
 
 
 def in_bounds_events(I, it):
